@@ -148,6 +148,16 @@ def parseSendQEv (i : Nat) (s : String) : Option SendQ.Ev :=
   | ["flush"] => some .flush
   | _ => none
 
+def parseReplaceEv (s : String) : Option Replace.Ev :=
+  match s.splitOn ":" with
+  | ["add"] => some .add
+  | ["start"] => some .start
+  | ["announce", b] => do some (.announce ((← b.toNat?) != 0))
+  | ["publish", i] => do some (.publish (← i.toNat?))
+  | ["take"] => some .take
+  | ["end"] => some .endCur
+  | _ => none
+
 def dedupNat (l : List Nat) : List Nat := l.foldl (fun acc x => if acc.contains x then acc else acc ++ [x]) []
 
 def handle (op : String) (args : List String) : Option String :=
@@ -213,6 +223,14 @@ def handle (op : String) (args : List String) : Option String :=
     let evs ← (kv args "evs").bind (parseList "," parseRecvEv)
     let s := Recv.run {} evs
     some s!"ok know={plusNats (sortNat s.know)} cur={match s.cur with | some k => toString k | none => "-"} live={plusNats (sortNat s.live)}"
+  | "replace" => do
+    let cap ← kvNat args "cap"
+    let evs ← (kv args "evs").bind (parseList "," parseReplaceEv)
+    let pre := (kvNat args "pre").getD 0
+    let s := if pre = 1 then Replace.runPre { cap := cap } evs else Replace.run { cap := cap } evs
+    let q := match s.cur with | some x => plusNats x.queue | none => "-"
+    let st := match s.cur with | some x => (if x.started then "1" else "0") | none => "-"
+    some s!"ok panicked={if s.panicked then 1 else 0} started={st} queue={q} skipped={plusNats s.skipped} blockedInit={if s.blockedInit then 1 else 0}"
   | "sendq" => do
     let cap ← kvNat args "cap"
     let raw ← kv args "evs"
